@@ -2796,7 +2796,7 @@ func (d *decoderCborBytes) decodeBytesInto(out []byte, mustFit bool) (v []byte, 
 func (d *decoderCborBytes) rawBytes() (v []byte) {
 
 	v = d.d.nextValueBytes()
-	if d.bytes && !d.h.ZeroCopy {
+	if !(d.bytes && d.h.ZeroCopy) {
 		vv := make([]byte, len(v))
 		copy(vv, v)
 		v = vv
@@ -6801,7 +6801,7 @@ func (d *decoderCborIO) decodeBytesInto(out []byte, mustFit bool) (v []byte, sta
 func (d *decoderCborIO) rawBytes() (v []byte) {
 
 	v = d.d.nextValueBytes()
-	if d.bytes && !d.h.ZeroCopy {
+	if !(d.bytes && d.h.ZeroCopy) {
 		vv := make([]byte, len(v))
 		copy(vv, v)
 		v = vv
